@@ -420,7 +420,13 @@ func sortedPairStrings(pairs map[*Ident]Expr) []string {
 	for k, arg := range pairs {
 		kwargs = append(kwargs, p{k: k.String(), v: arg.String()})
 	}
-	sort.Slice(kwargs, func(i, j int) bool { return kwargs[i].k < kwargs[j].k })
+	sort.Slice(kwargs, func(i, j int) bool {
+		// NOTE: the same name can be written twice, compare values too to keep the order fixed
+		if kwargs[i].k != kwargs[j].k {
+			return kwargs[i].k < kwargs[j].k
+		}
+		return kwargs[i].v < kwargs[j].v
+	})
 
 	sortedStrings := []string{}
 	for _, kwarg := range kwargs {
